@@ -34,6 +34,8 @@ func main() {
 	switch cmd {
 	case "merkle":
 		count, err = drive.MerkleReplay(*cases, *out, *seed, *inst)
+	case "voted":
+		count, err = drive.VotedReplay(*cases, *out, *seed, *inst)
 	default:
 		fmt.Fprintln(os.Stderr, "unknown command", cmd)
 		os.Exit(2)
